@@ -25,9 +25,6 @@ def intDomain (n b : Int) : Bool := inI64 n && decide (2 ≤ b) && decide (b ≤
 def specInt (n b : Int) (_formatted parsed : Res Value) : Bool :=
   !intDomain n b || restores parsed (.int n)
 
-/-- finding class: `format_int(i64::MIN, _)` (negation overflow in `format_radix`). -/
-def D_min_negate (n : Int) : Bool := n == i64Min
-
 /-! #### to_entries / from_entries -/
 
 def keysFixed : VMap → Bool
